@@ -2,9 +2,11 @@
 //
 // Exhaustive bounded exploration on the REAL chain/app/evm.EVMApp (LevelDB under
 // the work directory, driven stand-alone through verif/evmkit): a structured
-// grid of signed transactions, each placed alone in a block, twice in one
-// block, in two consecutive blocks and between two valid transactions, plus raw
-// byte strings as block transactions.  Opening the application is expensive
+// grid of signed transactions (including a signature-field boundary family
+// encoded by hand), each placed alone in a block and again in the next one,
+// twice in one block before a valid call, between valid transactions of another
+// sender, right after a valid and right after an invalid transaction of its own
+// sender, plus raw byte strings as block transactions.  Opening the application is expensive
 // (≈ 130 MB of LevelDB buffers), a block is cheap, so cases — each with senders
 // of its own — are executed in chains on one application instance; the oracle
 // judges the whole block sequence of a chain and compares it with the sequence
@@ -16,7 +18,9 @@
 //	(2) every tx of a block is reported in exactly one of ValidTxs / InvalidTxs;
 //	(3) a tx reported invalid leaves AppHash, ReceiptsHash and the observable
 //	    state (nonces, balances, contract storage, KV store, receipts) exactly as
-//	    the same blocks WITHOUT it leave them on a fresh identical state;
+//	    the same blocks WITHOUT it leave them on a fresh identical state (checked
+//	    without all invalid txs, and without only the first invalid tx of each
+//	    block: every other tx keeps its verdict);
 //	(4) a tx reported valid has a receipt (or KV record), carries exactly its
 //	    sender's current nonce, and raises that nonce by one — so a second copy of
 //	    a signed tx is never applied.
@@ -74,13 +78,14 @@ type item struct {
 	id     int
 	k      kase
 	blocks [][][]byte
+	gridTx []byte // grid cases: the bytes of the grid transaction as placed
 	evals  int
 	spin   bool
 	risky  bool // scheduling hint only: expected to panic, run on its own
 	cls    string
 }
 
-var placements = []string{"consecutive", "twice", "between", "after-own"}
+var placements = []string{"consecutive", "twice", "between", "after-own", "after-own-invalid"}
 
 // gridItem builds the case for grid tx s in the given placement; id selects the senders.
 func gridItem(id int, s txSpec, placement string) *item {
@@ -93,7 +98,10 @@ func gridItem(id int, s txSpec, placement string) *item {
 	case "consecutive":
 		it.blocks, it.evals = [][][]byte{{t}, {t}}, 2
 	case "twice":
-		it.blocks = [][][]byte{{t, t}}
+		// both copies, then an ordinary contract call of another sender: whatever the copies
+		// did to per-block resources, the call behind them must fare as it does without them
+		nb := neighbour(id)
+		it.blocks = [][][]byte{{t, t, evmkit.Call(nb, 0, storeAddr, evmkit.StorePut(uint64(id)+1))}}
 	case "after-own":
 		// the grid tx right after a valid tx of the SAME sender in the same block: whatever happens
 		// to the second one, the effects of the first one stay
@@ -104,12 +112,22 @@ func gridItem(id int, s txSpec, placement string) *item {
 		t = buildTx(s2, own)
 		// (a key-value transaction: its nonce bump is still in the state journal when the grid tx runs)
 		it.blocks = [][][]byte{{evmkit.KVPut(own, 0, []byte("kO"), []byte(fmt.Sprint("vO", id))), t}}
+	case "after-own-invalid":
+		// the grid tx right after an INVALID tx of the same sender (right nonce, a value the sender
+		// cannot pay: the state transition fails after the gas was bought), and the same bytes again in
+		// the next block: the failed predecessor must not change what happens to the grid tx, and the
+		// grid tx takes effect at most once
+		own := gridSender(id)
+		a := evmkit.Sign(own, evmkit.TxSpec{Nonce: aliceNonce, To: &eoa.Addr, Value: new(big.Int).Add(fundF, big.NewInt(1)), Gas: evmkit.DefaultGas})
+		it.blocks, it.evals = [][][]byte{{a, t}, {t}}, 2
 	case "between":
 		nb := neighbour(id)
-		it.blocks = [][][]byte{{evmkit.Call(nb, 0, storeAddr, evmkit.StorePut(uint64(id)+1)), t, evmkit.KVPut(nb, 1, []byte("kB"), []byte(fmt.Sprint("vB", id)))}}
+		// (the tx behind the grid tx is an EVM call, then a KV put: both execution paths follow it)
+		it.blocks = [][][]byte{{evmkit.Call(nb, 0, storeAddr, evmkit.StorePut(uint64(id)+1)), t, evmkit.Call(nb, 1, storeAddr, evmkit.StorePut(uint64(id)+2)), evmkit.KVPut(nb, 2, []byte("kB"), []byte(fmt.Sprint("vB", id)))}}
 	default:
 		core.Fatal("unknown placement %q", placement)
 	}
+	it.gridTx = t
 	// scheduling hint only (never used by the oracle): will this tx reach the AdminOP precompile with an input it mishandles?
 	p := payloadBytes(s.P)
 	executes := ((s.S == "valid" && s.N == 0) || (s.S == "vflip" && s.N == -1)) && (s.G == "std" || s.G == "max") && s.Pr != "max" && s.V != "bal+1" && !(s.Pr == "1" && s.V == "bal") && !bytes.HasPrefix(p, []byte("kvTx-"))
@@ -455,7 +473,7 @@ func (d *driver) itemOf(k kase, id int) *item {
 	switch k.Kind {
 	case "grid":
 		it := gridItem(id, *k.Tx, k.Placement)
-		it.cls = d.e.info(buildTx(*k.Tx, gridSender(id))).class
+		it.cls = d.e.info(it.gridTx).class
 		return it
 	case "raw":
 		var txs [][]byte
@@ -532,6 +550,12 @@ func main() {
 	// ---- enumerate
 	specs := grid(run.Quick())
 	var items []*item
+	nSigFamily := 0
+	for _, s := range specs {
+		if strings.HasPrefix(s.S, "vrs:") {
+			nSigFamily++
+		}
+	}
 	for _, s := range specs {
 		for _, pl := range placements {
 			items = append(items, &item{id: len(items), k: kase{Kind: "grid", Placement: pl}, spin: s.spinning()})
@@ -543,7 +567,7 @@ func main() {
 	e.tpl, e.base = buildTemplate(work, nGridItems)
 	core.Par(nGridItems, func(i int) {
 		it := gridItem(i, *items[i].k.Tx, items[i].k.Placement)
-		it.cls = e.info(it.blocks[0][len(it.blocks[0])/2]).class
+		it.cls = e.info(it.gridTx).class
 		it.k.ID = i
 		items[i] = it
 	})
@@ -629,6 +653,8 @@ func main() {
 		"evaluations":                          int(atomic.LoadInt64(&d.evals)),
 		"grid_transactions":                    len(specs),
 		"grid_cases":                           nGridItems,
+		"grid_transactions_sig_field_family":   nSigFamily,
+		"placements":                           placements,
 		"grid_cases_spinning":                  spinning,
 		"raw_short_strings":                    len(short),
 		"raw_mutants":                          nMut,
@@ -638,6 +664,7 @@ func main() {
 		"blocks_executed":                      int(atomic.LoadInt64(&e.blocks)),
 		"txs_executed":                         int(atomic.LoadInt64(&e.txs)),
 		"receipts_hash_positional_skips":       int(atomic.LoadInt64(&e.positionalSkips)),
+		"single_removal_counterfactual_runs":   int(atomic.LoadInt64(&e.singleRemovalRuns)),
 		"distinct_nontrivial":                  d.classes.Len(),
 		"input_classes":                        d.inputs.Map(),
 		"outcome_classes":                      d.classes.Map(),
@@ -647,17 +674,17 @@ func main() {
 		"rule": "base state: harness genesis (DefaultGenesis + one sender per case funded 1e24 wei with nonce 1, an EOA with 1000 wei) + one block deploying the Store and Loop fixtures and a KV put. " +
 			"Dimensions: recipient R = {contract creation, precompiles 0x01..0x08, AdminOP precompile 0xfe, admin contract 0x02000000, funded EOA, non-existent address, Store contract, Loop contract, self} (16); " +
 			"payload P = {empty, 1 byte, 31/32/33/51/52 pattern bytes, 52 zero bytes, 52 bytes with first word 2^63, KV marker only, KV marker + bad RLP, valid KV, KV with 257-byte key, KV with 4097-byte value, Store.set call, Store.fail (reverting) call, spin code 5b600056, admin-op calldata accepted by the callback, admin-op calldata refused} (19); " +
-			"nonce N = {cur-1, cur, cur+1}; gas limit G = {0, 1, 10^7, 2^64-1}; gas price Pr = {0, 1, 2^256-1}; value V = {0, balance, balance+1}; signature S = {valid, v flipped (a valid signature of another address), v=29, r=0, high-s twin, EIP-155 chain 1, EIP-155 chain 9}. " +
-			"Thorough enumerates, all other dimensions at the default (EOA, empty, cur, 10^7, 0, 0, valid): A = R x P x N (Loop recipient restricted to P in {empty, set, kv, b52}); B = R x G x Pr x V; C = S x N x {empty, kv, set} x {create, 0xfe, Store, EOA, self}; D = {Store, 0xfe, create} x P x G x Pr; E = {Store, 0xfe, create, EOA} x P x V; F = S x R and S x P(to Store); G' = {Store, EOA, create, 0xfe} x N x G x Pr x V; duplicates removed; of the combinations that make the interpreter spin to its 10^8-gas budget (~0.6 s each) only a fixed subset is kept. " +
-			"Quick enumerates A with N != cur only for P in {empty, kv, set} and the Loop recipient only with P in {empty, kv}; B without G=0, Pr=max, V=balance; C for P in {kv, set} and R in {0xfe, Store, self}; F = S x R. " +
-			"Every grid tx gives three cases, each with a sender of its own: (i)+(iii) alone in a block and again in the next block, (ii) twice in one block, (iv) between a valid contract call and a valid KV put of another sender. " +
+			"nonce N = {cur-1, cur, cur+1}; gas limit G = {0, 1, 10^7, 2^64-1}; gas price Pr = {0, 1, 2^256-1}; value V = {0, balance, balance+1}; signature S = {valid, v flipped (a valid signature of another address), v=29, r=0, high-s twin, EIP-155 chain 1, EIP-155 chain 9} and the signature-field boundary family vrs:<V>:<R>:<S> (hand-encoded RLP) with R in {own, 0, 1, N-1, N, N+1, 2^256-1, 2^256, 2^264-1 (33 bytes)}, S in {own, 0, 1, N/2, N/2+1, N-1, N, N+1, 2^256-1, 2^256, 2^264-1}, V in {own, 0, 1, 26, 27, 28, 29, 35, 36, 37, 38, 53, 54, 255, 256, 2^64} (N = order of secp256k1, own = the field of the sender's genuine signature). " +
+			"Thorough enumerates, all other dimensions at the default (EOA, empty, cur, 10^7, 0, 0, valid): A = R x P x N (Loop recipient restricted to P in {empty, set, kv, b52}); B = R x G x Pr x V; C = S x N x {empty, kv, set} x {create, 0xfe, Store, EOA, self}; D = {Store, 0xfe, create} x P x G x Pr; E = {Store, 0xfe, create, EOA} x P x V; F = S x R and S x P(to Store); G' = {Store, EOA, create, 0xfe} x N x G x Pr x V; H = R x S x V of the signature-field family in full; I = {EOA, Store, create} x gas limit 2^63 x Pr x V; duplicates removed; of the combinations that make the interpreter spin to its 10^8-gas budget (~0.6 s each) only a fixed subset is kept. " +
+			"Quick enumerates A with N != cur only for P in {empty, kv, set} and the Loop recipient only with P in {empty, kv}; B without G=0, Pr=max, V=balance; C for P in {kv, set} and R in {0xfe, Store, self}; F = S x R; H = R x S (without own) for V in {27, 28} plus every V for (R,S) in {(own,own), (1,1), (2^256,1), (1,2^256)}; I without Pr=max, V=balance. " +
+			"Every grid tx gives five cases, each with a sender of its own: (i)+(iii) alone in a block and again in the next block, (ii) twice in one block followed by a valid contract call of another sender, (iv) between valid transactions of another sender (a contract call before it; a contract call and a KV put behind it), (v) right after a valid KV tx of the same sender, (vi) right after an INVALID tx of the same sender (right nonce, unaffordable value) and again in the next block. " +
 			"Raw block txs: the empty string alone, the other 65792 byte strings of length <= 2 in blocks of 1024 followed by one valid tx, and for three valid encoded txs (transfer, KV put, contract call with log) every single-byte replacement by {00,01,7f,80,ff} and every proper non-empty prefix in blocks of 64 followed by one valid tx; a block that panics is bisected so that the remaining strings are still judged. " +
-			"Cases are executed in chains of ~128 on one application instance (fresh copy of the base state per chain; cases expected to panic run alone; after a panic the rest of the chain is re-run on a new instance); the oracle is evaluated on the whole block sequence, its counterfactual (the sequence without every tx reported invalid) runs on another fresh copy; a finding is re-confirmed with its case alone on a fresh base state. " +
+			"Cases are executed in chains of ~128 on one application instance (fresh copy of the base state per chain; cases expected to panic run alone; after a panic the rest of the chain is re-run on a new instance); the oracle is evaluated on the whole block sequence, its counterfactual (the sequence without every tx reported invalid) runs on another fresh copy, and when some block has two or more invalid txs a second counterfactual (the sequence without only the FIRST invalid tx of each block: every other tx must keep its verdict, the app hashes must be equal) on a third; a finding is re-confirmed with its case alone on a fresh base state. " +
 			"evaluations = (tx, placement) pairs judged (raw: one per string); distinct_nontrivial = distinct (input class, placement, per-block verdict pattern with normalised error text) outcomes observed.",
 	}, []string{
 		"funded accounts are a harness state: on the real chain no balance ever exists (genesis allocates only the admin contract, nothing mints); value/gas-price dimensions are therefore explored from a state the real chain cannot reach, all other dimensions from one it can",
 		"the AdminOP precompile's callback (installed by chain/core.NewNode in a real node) is replaced by a stateless stub that accepts payloads ending in \"ok\"; validator-set effects of admin operations are outside the application and not observed",
-		"counterfactual comparison: AppHash equality stands for the whole account trie (collision resistance of keccak256); non-trie state is compared through Query (KV store, receipts) and ReceiptsHash; receipts are compared without positional metadata (block hash, tx index); the counterfactual keeps the original block hashes when a log-bearing tx is involved, and ReceiptsHash is not compared for a block in which a log-bearing valid tx follows a removed tx (counted in receipts_hash_positional_skips)",
+		"counterfactual comparison: AppHash equality stands for the whole account trie (collision resistance of keccak256); non-trie state is compared through Query (KV store, receipts) and ReceiptsHash; receipts are compared without positional metadata (block hash, tx index); when a log-bearing tx is involved the counterfactuals' headers are built from the original run's tips and tx lists, so that every block hashes like the original's (the application never looks at the header's hash fields), and ReceiptsHash is not compared for a block in which a log-bearing valid tx follows a removed tx (counted in receipts_hash_positional_skips)",
 		"decoding and signature recovery run on goroutines the application spawns; they are pre-screened on the driver's goroutine with the same functions (rlp.DecodeBytes, types.Sender) so that a panic there is observed instead of killing the driver",
 		"schedule-dependent behaviour of exeWithCPUParallelVeirfy (status word published before tx.err / before the original bytes are stored) is observed only when the Go scheduler happens to produce it; exploring its interleavings is the SCHED part of C05",
 	})
